@@ -48,6 +48,20 @@ pub(crate) enum OneshotTask {
     LoadContacts(oneshot::Sender<(HashSet<SocketAddr>, HashSet<SocketAddr>)>),
 }
 
+#[cfg(btdht_verif)]
+impl OneshotTask {
+    pub(crate) fn verif_name(&self) -> &'static str {
+        match self {
+            Self::StartBootstrap() => "StartBootstrap",
+            Self::CheckBootstrap(_) => "CheckBootstrap",
+            Self::StartLookup(_) => "StartLookup",
+            Self::GetLocalAddr(_) => "GetLocalAddr",
+            Self::GetState(_) => "GetState",
+            Self::LoadContacts(_) => "LoadContacts",
+        }
+    }
+}
+
 pub(crate) struct StartLookup {
     pub info_hash: InfoHash,
     pub announce: bool,
